@@ -228,10 +228,20 @@ def case_imu(H, F, chunks, gravity, known_rot, init_mode, rank):
             for i in range(3):
                 H.certify('%s/vel[%d][%d]' % (name, k, i), outs['vel'][3 * k + i], vel[i], rels, hyps=hyp, replay=replay, key='C16/recursion', timeout=to)
                 H.certify('%s/pos[%d][%d]' % (name, k, i), outs['pos'][3 * k + i], pos[i], rels, hyps=hyp, replay=replay, key='C16/recursion', timeout=to)
-        if cov is not None and len(cov) == 81 and F == 1:
+        if cov is not None and len(cov) == 81 and (F == 1 or (chunks == (1, 1) and init_mode == 'ctor' and not known_rot)):
+            # (for the chunking (1,1) this is the covariance after the SECOND call, propagated from the non-zero covariance of the first)
+            def replay_cov(model):
+                torch.manual_seed(12)
+                integ = pp.module.IMUPreintegrator(reset=False).double()
+                worst = 0.0
+                for c_ in range(3):
+                    res = integ(torch.rand(1, 2, 1, dtype=DT) * 0.1 + 0.01, torch.randn(1, 2, 3, dtype=DT), torch.randn(1, 2, 3, dtype=DT))
+                    C_ = res['cov'].reshape(9, 9)
+                    worst = max(worst, ((C_ - C_.T).abs().max() / C_.abs().max()).item(), -torch.linalg.eigvalsh((C_ + C_.T) / 2).min().item() / C_.abs().max().item())
+                return worst > 1e-9, 'propagated covariance after repeated calls is not symmetric PSD (relative asymmetry / negative eigenvalue %.3g)' % worst
             for i in range(9):
                 for j in range(i):
-                    H.prove('%s/cov-symmetric[%d,%d]' % (name, i, j), hyp, cov[i * 9 + j] == cov[j * 9 + i], key='C16/cov', timeout=to)
+                    H.same('%s/cov-symmetric[%d,%d]' % (name, i, j), hyp, cov[i * 9 + j], cov[j * 9 + i], ctx, replay=(replay_cov if F > 1 else None), key='C16/cov', timeout=to)
 
 
 def case_cov_psd(H):
@@ -262,6 +272,7 @@ def run(H):
         jobs.append(lambda c=chunks: case_imu(H, 2, c, G, False, 'ctor', 3))
         jobs.append(lambda c=chunks: case_imu(H, 2, c, G, False, 'init_state', 3))
     jobs.append(lambda: case_imu(H, 2, (1, 1), G, True, 'init_state', 3))
+    jobs.append(lambda: case_imu(H, 2, (1, 1), G, True, 'ctor', 3))          # known rotation with the state carried inside the module
     jobs.append(lambda: case_imu(H, 2, (2,), 0.0, False, 'default', 2))
     jobs.append(lambda: case_imu(H, 1, (1,), G, False, 'ctor', 1))
     jobs.append(lambda: case_imu(H, 2, (2,), G, True, 'ctor', 2))
